@@ -1,19 +1,21 @@
 import AldorVerif.Lemmas.LibHdr
 import AldorVerif.Lemmas.Archive
 
-
 /-! # C17 — damaged library files are refused, never silently used: theorems about the models
-of `lib.c` (header code) and `archive.c` (member walk).
+of `lib.c` (header code, as repaired) and `archive.c` (member walk).
 
-What the code guarantees is much less than the property asks: `libChkHeader` checks magic,
-version, the number of sections, the name ↔ index maps and *contiguity* of the section table,
-never the file size; `libGetHeader` throws its verdict away; `FILE_GET_CHARS` throws the
-`fread` count away.  `accepted_in_bounds_statement` is therefore false of the code as it is
-(`accepted_in_bounds_statement_refuted`, witness: any cut after the header) and is a theorem of
-the repaired reader (`checked_accepted_in_bounds`). -/
+`libChkHeader` by itself checks magic, version, the number of sections, the name ↔ index maps
+and *contiguity* of the section table, never the file size (`chk_exactly`,
+`chk_alone_does_not_bound`).  The repaired `libGetHeader` tests the `fread` count, honours that
+verdict and compares the end of the last section with the file size, so an accepted header
+describes sections inside the file (`accepted_in_bounds`), every section read is complete
+(`accepted_sections_complete`) and every truncation of a file that ends with its last section
+is refused (`truncation_refused`).  Not covered by any check of the code: the *content* of the
+section bodies (no checksum; `checks/parts/libhdr.py` records what the decoders do with single
+byte substitutions there), and bytes after the last section (`trailing_bytes_accepted`). -/
 namespace AldorVerif.LibHdr
 
-/-- **what `libChkHeader` really guarantees** -/
+/-- **what `libChkHeader` guarantees** -/
 theorem chk_contiguous (h : Hdr) (hok : chk h = .ok) :
     h.magic = hdrMagic ∧ majorVersion ≤ h.verMajor ∧ h.numSect ≤ nameLimit ∧
     (∀ i, i < h.numSect → (h.sectAt i).name < nameLimit ∧ h.index (h.sectAt i).name = i) ∧
@@ -26,8 +28,7 @@ theorem chk_contiguous (h : Hdr) (hok : chk h = .ok) :
   have := hf.version
   omega
 
-/-- … and nothing else: any header with these facts is accepted (so `chk` says nothing about
-the size of the file). -/
+/-- … and nothing else: any header with these facts is accepted -/
 theorem chk_exactly (h : Hdr) : chk h = .ok ↔ ChkFacts h := chk_ok_iff h
 
 /-- the section names of an accepted header are pairwise different -/
@@ -38,125 +39,28 @@ theorem chk_names_distinct (h : Hdr) (hok : chk h = .ok) (i j : Nat) (hi : i < h
   have h2 := (hf.names j hj).2
   rw [he] at h1; omega
 
-/-- the widths of the fields in the file -/
-def FitsWidths (h : Hdr) : Prop := ∀ s ∈ h.sects, s.InRange
+/-- every section of a header accepted by `chk` ends no later than the last one -/
+theorem chk_sections_below_end (h : Hdr) (hok : chk h = .ok) (i : Nat) (hi : i < h.numSect) :
+    (h.sectAt i).offset + (h.sectAt i).length ≤ endOf h := by
+  have hf := (chk_ok_iff h).mp hok
+  unfold endOf
+  have hne : ¬ h.numSect = 0 := by omega
+  rw [if_neg hne]
+  by_cases hlast : i = h.numSect - 1
+  · rw [← hlast]; exact Nat.le_refl _
+  · have := hf.mono i (h.numSect - 1) (by omega) (by omega)
+    omega
 
-theorem putHeader_length (h : Hdr) (hl : h.sects.length = nameLimit) : (putHeader h).length = hdrSize := by
-  simp [putHeader, putHInt, putSInt, putSects_length, hl, hdrSize, fixedSize, sectSize, nameLimit]
-
-/-- reading back what `libPutHeader` wrote gives the same header fields and table -/
-theorem getHeader_putHeader (h : Hdr) (hb : Built h) (hw : FitsWidths h) (body junk : List Nat) :
-    let h' := getHeader (putHeader h ++ body) junk
-    h'.magic = h.magic ∧ h'.verMajor = h.verMajor ∧ h'.verMinor = h.verMinor ∧
-    h'.numSect = h.numSect ∧ h'.sects = h.sects ∧
-    h'.index = setupIndex h.sects 0 (fun _ => nameLimit) := by
-  have hlen := putHeader_length h hb.len
-  have hr : readBuf (putHeader h ++ body) 0 hdrSize junk = putHeader h := by
-    rw [← hlen]; exact readBuf_prefix _ _ _
-  simp only [getHeader, hr]
-  have hs : getSects nameLimit (putSects h.sects) = h.sects := by
-    have := getSects_putSects h.sects [] hw
-    rw [hb.len, List.append_nil] at this
-    exact this
-  have hm : h.magic < 65536 := by rw [hb.magic]; decide
-  have hn : h.numSect < 65536 := by have := hb.num; unfold nameLimit at this; omega
-  have ha : h.verMajor < 4294967296 := by rw [hb.vmaj]; decide
-  have hi : h.verMinor < 4294967296 := by rw [hb.vmin]; decide
-  simp only [putHeader, putHInt, putSInt, List.cons_append, List.nil_append, decode, hs]
-  simp only [getHInt_putHInt _ hm, getHInt_putHInt _ hn, getSInt_putSInt _ ha, getSInt_putSInt _ hi]
-  exact ⟨trivial, trivial, trivial, trivial, trivial, trivial⟩
-
-/-- **every header produced by the writer is accepted when read back**: sections added with
-`libAddSection`/`libPutSection` in any order, distinct names below `LIB_NAME_LIMIT`, at least
-one section (an empty header is refused by `libChkHeader`, and `libPutHeader` then stops with
-`bug("bad header given to libPutHeader")`), all offsets within 32 bits. -/
-theorem intact_accepted (reqs : List (Nat × Nat)) (h : Hdr) (hbuild : build newHeader reqs = some h)
-    (hne : reqs ≠ []) (hn : ∀ r ∈ reqs, r.1 < nameLimit) (hw : FitsWidths h) (body junk : List Nat) :
-    chk (getHeader (putHeader h ++ body) junk) = .ok := by
-  obtain ⟨hb, hnum⟩ := built_build reqs built_new hn hbuild
-  have hpos : 0 < h.numSect := by
-    rw [hnum]; cases reqs with
-    | nil => exact absurd rfl hne
-    | cons r rs => simp [newHeader]
-  obtain ⟨e1, e2, e3, e4, e5, e6⟩ := getHeader_putHeader h hb hw body junk
-  rw [chk_ok_iff]
-  have hsa : ∀ i, (getHeader (putHeader h ++ body) junk).sectAt i = h.sectAt i := by
-    intro i; simp only [Hdr.sectAt, e5]
-  constructor
-  · rw [e1]; exact hb.magic
-  · rw [e2, e3, hb.vmaj, hb.vmin]; decide
-  · rw [e4]; exact hb.num
-  · intro i hi
-    rw [e4] at hi
-    rw [hsa, e6]
-    have hu := hb.used i hi
-    refine ⟨hu.1, ?_⟩
-    have := setupIndex_unique h.sects 0 (fun _ => nameLimit) (h.sectAt i).name i
-      (by rw [hb.len]; have := hb.num; omega) rfl hu.1
-      (by
-        intro j _ hj
-        by_cases hjn : j < h.numSect
-        · have h2 := (hb.used j hjn).2
-          have hj' : (h.sectAt j).name = (h.sectAt i).name := hj
-          rw [hj', hu.2] at h2; exact h2.symm
-        · have h3 := hb.unused j (by omega)
-          have hj' : (h.sectAt j).name = (h.sectAt i).name := hj
-          rw [h3] at hj'
-          have : (Sect.none).name = nameLimit := rfl
-          omega)
-    rw [this]; omega
-  · rw [hsa]; exact hb.off0 hpos
-  · intro i hi0 hi
-    rw [e4] at hi
-    rw [hsa, hsa]; exact hb.contig i hi0 hi
-
-/-- the verdict on a file cut anywhere after the header equals the verdict on the whole file -/
-theorem truncation_keeps_header (file junk : List Nat) (n : Nat) (hn : hdrSize ≤ n) :
-    getHeader (file.take n) junk = getHeader file junk := by
-  simp only [getHeader, readBuf_take _ _ _ _ hn]
-
-/-- **C17 target (header part)**: an accepted header describes sections that lie within the file. -/
-def accepted_in_bounds_statement : Prop :=
-  ∀ (file junk : List Nat), chk (getHeader file junk) = .ok →
-    ∀ i, i < (getHeader file junk).numSect →
-      ((getHeader file junk).sectAt i).offset + ((getHeader file junk).sectAt i).length ≤ file.length
-
-/-- a one-section library: header + 10 body bytes -/
-def witnessHdr : Hdr := (build newHeader [(15, 10)]).getD newHeader
-def witnessFile : List Nat := putHeader witnessHdr ++ List.replicate 10 65
-
-/-- the code as it is accepts the header of *every* strict truncation that keeps the header
-(here: 5 of the 10 body bytes are missing). -/
-theorem accepted_in_bounds_statement_refuted : ¬ accepted_in_bounds_statement := by
-  intro h
-  have := h (witnessFile.take 170) [] (by decide +kernel) 0 (by decide +kernel)
-  revert this; decide +kernel
-
-/-- general form of the witness: whenever the intact file is accepted and its last section
-ends where the file ends, every cut at `n ≥ hdrSize` is accepted too and its last section
-sticks out of the file. -/
-theorem strict_truncation_accepted (file junk : List Nat) (n : Nat) (hn : hdrSize ≤ n)
-    (hlt : n < file.length) (hok : chk (getHeader file junk) = .ok)
-    (hend : let h := getHeader file junk
-            (h.sectAt (h.numSect - 1)).offset + (h.sectAt (h.numSect - 1)).length = file.length) :
-    let h' := getHeader (file.take n) junk
-    chk h' = .ok ∧ (file.take n).length < (h'.sectAt (h'.numSect - 1)).offset + (h'.sectAt (h'.numSect - 1)).length := by
-  simp only [truncation_keeps_header file junk n hn]
-  refine ⟨hok, ?_⟩
-  simp only at hend
-  rw [hend, List.length_take]; omega
-
-theorem getHeaderChecked_some (file junk : List Nat) (h : Hdr) :
-    getHeaderChecked file junk = some h ↔
-      readCount file 0 hdrSize = hdrSize ∧ h = reindex (decode (readBuf file 0 hdrSize junk)) ∧
-      chk h = .ok ∧ endOf h = file.length := by
-  unfold getHeaderChecked
+theorem getHeader_some (file junk : List Nat) (h : Hdr) :
+    getHeader file junk = some h ↔
+      readCount file 0 hdrSize = hdrSize ∧ h = readHeader file junk ∧ chk h = .ok ∧ endOf h ≤ file.length := by
+  unfold getHeader getHeaderE
   by_cases h1 : readCount file 0 hdrSize = hdrSize
   · rw [if_pos h1]
     simp only
-    by_cases h2 : chk (reindex (decode (readBuf file 0 hdrSize junk))) = .ok
+    by_cases h2 : chk (readHeader file junk) = .ok
     · rw [if_pos h2]
-      by_cases h3 : endOf (reindex (decode (readBuf file 0 hdrSize junk))) = file.length
+      by_cases h3 : endOf (readHeader file junk) ≤ file.length
       · rw [if_pos h3]
         constructor
         · intro he; injection he with he; subst he; exact ⟨h1, rfl, h2, h3⟩
@@ -174,82 +78,217 @@ theorem getHeaderChecked_some (file junk : List Nat) (h : Hdr) :
     · intro he; cases he
     · intro ⟨h4, _⟩; exact absurd h4 h1
 
-/-- the repaired reader does satisfy the target -/
-theorem checked_accepted_in_bounds (file junk : List Nat) (h : Hdr)
-    (hc : getHeaderChecked file junk = some h) :
+/-- **C17, header part**: a header `libGetHeader` accepts passes `libChkHeader` and describes
+sections that lie within the file. -/
+theorem accepted_in_bounds (file junk : List Nat) (h : Hdr) (hc : getHeader file junk = some h) :
     chk h = .ok ∧ ∀ i, i < h.numSect → (h.sectAt i).offset + (h.sectAt i).length ≤ file.length := by
-  obtain ⟨_, _, hok, hfin⟩ := (getHeaderChecked_some file junk h).mp hc
-  refine ⟨hok, fun i hi => ?_⟩
-  have hf := (chk_ok_iff _).mp hok
-  unfold endOf at hfin
-  have hne : ¬ h.numSect = 0 := by omega
-  rw [if_neg hne] at hfin
-  rw [← hfin]
-  by_cases hlast : i = h.numSect - 1
-  · rw [← hlast]; exact Nat.le_refl _
-  · have := hf.mono i (h.numSect - 1) (by omega) (by omega)
-    omega
+  obtain ⟨_, _, hok, hfin⟩ := (getHeader_some file junk h).mp hc
+  exact ⟨hok, fun i hi => Nat.le_trans (chk_sections_below_end h hok i hi) hfin⟩
 
-/-- the repaired reader refuses every strict truncation of a file it accepts -/
-theorem checked_refuses_truncation (file junk : List Nat) (h : Hdr) (n : Nat)
-    (hc : getHeaderChecked file junk = some h) (hlt : n < file.length) :
-    getHeaderChecked (file.take n) junk = none := by
-  obtain ⟨hcnt, hh, hok, hfin⟩ := (getHeaderChecked_some file junk h).mp hc
-  cases hx : getHeaderChecked (file.take n) junk with
+/-- the whole header was read from the file: no uninitialised byte takes part -/
+theorem accepted_independent_of_junk (file junk junk' : List Nat) (h : Hdr)
+    (hc : getHeader file junk = some h) : getHeader file junk' = some h := by
+  obtain ⟨hcnt, hh, hok, hfin⟩ := (getHeader_some file junk h).mp hc
+  have hlen : hdrSize ≤ file.length := by simp [readCount] at hcnt; omega
+  have hb : ∀ j, readBuf file 0 hdrSize j = (file.drop 0).take hdrSize :=
+    fun j => readBuf_exact file j 0 hdrSize (by omega)
+  rw [getHeader_some]
+  refine ⟨hcnt, ?_, hok, hfin⟩
+  rw [hh]; unfold readHeader; rw [hb junk, hb junk']
+
+/-- the test of the file size is needed: `libChkHeader` alone accepts headers of files that
+are too short (this was the state of the code before the repair). -/
+def witnessHdr : Hdr := (build newHeader [(15, 10)]).getD newHeader
+def witnessFile : List Nat := putHeader witnessHdr ++ List.replicate 10 65
+
+theorem chk_alone_does_not_bound :
+    ¬ ∀ (file junk : List Nat), chk (readHeader file junk) = .ok → endOf (readHeader file junk) ≤ file.length := by
+  intro h
+  have := h (witnessFile.take 170) [] (by decide +kernel)
+  revert this; decide +kernel
+
+/-- a cut after the header leaves the parsed header unchanged (so only the size test can
+refuse it) -/
+theorem truncation_keeps_header (file junk : List Nat) (n : Nat) (hn : hdrSize ≤ n) :
+    readHeader (file.take n) junk = readHeader file junk := by
+  simp only [readHeader, readBuf_take _ _ _ _ hn]
+
+/-- **every strict truncation of an accepted file that ends with its last section is refused** -/
+theorem truncation_refused (file junk : List Nat) (h : Hdr) (n : Nat)
+    (hc : getHeader file junk = some h) (hend : endOf h = file.length) (hlt : n < file.length) :
+    getHeader (file.take n) junk = none := by
+  obtain ⟨hcnt, hh, hok, hfin⟩ := (getHeader_some file junk h).mp hc
+  cases hx : getHeader (file.take n) junk with
   | none => rfl
   | some h' =>
     exfalso
-    obtain ⟨hcnt', hh', _, hfin'⟩ := (getHeaderChecked_some _ junk h').mp hx
+    obtain ⟨hcnt', hh', _, hfin'⟩ := (getHeader_some _ junk h').mp hx
     have hn : hdrSize ≤ n := by
       simp [readCount, List.take_take] at hcnt'; omega
-    rw [readBuf_take file junk n hdrSize hn] at hh'
-    rw [← hh] at hh'
+    rw [truncation_keeps_header file junk n hn, ← hh] at hh'
     subst hh'
-    rw [hfin, List.length_take] at hfin'
+    rw [hend, List.length_take] at hfin'
     omega
+
+/-- bytes after the last section are not looked at (the equality `end = size` is not tested) -/
+theorem trailing_bytes_accepted (file junk extra : List Nat) (h : Hdr)
+    (hc : getHeader file junk = some h) : getHeader (file ++ extra) junk = some h := by
+  obtain ⟨hcnt, hh, hok, hfin⟩ := (getHeader_some file junk h).mp hc
+  have hlen : hdrSize ≤ file.length := by simp [readCount] at hcnt; omega
+  rw [getHeader_some]
+  have hrb : readBuf (file ++ extra) 0 hdrSize junk = readBuf file 0 hdrSize junk := by
+    rw [readBuf_exact _ _ _ _ (by simp; omega), readBuf_exact _ _ _ _ (by omega)]
+    simp [List.take_append_of_le_length hlen]
+  refine ⟨by simp [readCount]; omega, ?_, hok, by simp; omega⟩
+  rw [hh]; unfold readHeader; rw [hrb]
+
+/-! ### the writer -/
+
+/-- the widths of the fields in the file -/
+def FitsWidths (h : Hdr) : Prop := ∀ s ∈ h.sects, s.InRange
+
+theorem putHeader_length (h : Hdr) (hl : h.sects.length = nameLimit) : (putHeader h).length = hdrSize := by
+  simp [putHeader, putHInt, putSInt, putSects_length, hl, hdrSize, fixedSize, sectSize, nameLimit]
+
+/-- reading back what `libPutHeader` wrote gives the same header fields and table -/
+theorem readHeader_putHeader (h : Hdr) (hb : Built h) (hw : FitsWidths h) (body junk : List Nat) :
+    let h' := readHeader (putHeader h ++ body) junk
+    h'.magic = h.magic ∧ h'.verMajor = h.verMajor ∧ h'.verMinor = h.verMinor ∧
+    h'.numSect = h.numSect ∧ h'.sects = h.sects ∧
+    h'.index = setupIndex (h.sects.take h.numSect) 0 (fun _ => nameLimit) := by
+  have hlen := putHeader_length h hb.len
+  have hr : readBuf (putHeader h ++ body) 0 hdrSize junk = putHeader h := by
+    rw [← hlen]; exact readBuf_prefix _ _ _
+  simp only [readHeader, hr]
+  have hs : getSects nameLimit (putSects h.sects) = h.sects := by
+    have := getSects_putSects h.sects [] hw
+    rw [hb.len, List.append_nil] at this
+    exact this
+  have hm : h.magic < 65536 := by rw [hb.magic]; decide
+  have hn : h.numSect < 65536 := by have := hb.num; unfold nameLimit at this; omega
+  have ha : h.verMajor < 4294967296 := by rw [hb.vmaj]; decide
+  have hi : h.verMinor < 4294967296 := by rw [hb.vmin]; decide
+  simp only [putHeader, putHInt, putSInt, List.cons_append, List.nil_append, decode, hs]
+  simp only [getHInt_putHInt _ hm, getHInt_putHInt _ hn, getSInt_putSInt _ ha, getSInt_putSInt _ hi]
+  exact ⟨trivial, trivial, trivial, trivial, trivial, trivial⟩
+
+/-- **every library produced by the writer is accepted when read back**: sections added with
+`libAddSection`/`libPutSection` in any order, distinct names below `LIB_NAME_LIMIT`, at least
+one section (an empty header is refused by `libChkHeader`, and `libPutHeader` then stops with
+`bug("bad header given to libPutHeader")`), all offsets within 32 bits, the bodies present. -/
+theorem intact_accepted (reqs : List (Nat × Nat)) (h : Hdr) (hbuild : build newHeader reqs = some h)
+    (hne : reqs ≠ []) (hn : ∀ r ∈ reqs, r.1 < nameLimit) (hw : FitsWidths h) (body junk : List Nat)
+    (hbody : endOf h ≤ hdrSize + body.length) :
+    ∃ h', getHeader (putHeader h ++ body) junk = some h' ∧ h'.numSect = h.numSect ∧ h'.sects = h.sects := by
+  obtain ⟨hb, hnum⟩ := built_build reqs built_new hn hbuild
+  have hpos : 0 < h.numSect := by
+    rw [hnum]; cases reqs with
+    | nil => exact absurd rfl hne
+    | cons r rs => simp [newHeader]
+  obtain ⟨e1, e2, e3, e4, e5, e6⟩ := readHeader_putHeader h hb hw body junk
+  have hplen := putHeader_length h hb.len
+  refine ⟨readHeader (putHeader h ++ body) junk, ?_, e4, e5⟩
+  rw [getHeader_some]
+  have hsa : ∀ i, (readHeader (putHeader h ++ body) junk).sectAt i = h.sectAt i := by
+    intro i; simp only [Hdr.sectAt, e5]
+  have hend : endOf (readHeader (putHeader h ++ body) junk) = endOf h := by
+    unfold endOf; rw [e4, hsa]
+  refine ⟨by simp [readCount, hplen], rfl, ?_, by rw [hend]; simp [hplen]; omega⟩
+  rw [chk_ok_iff]
+  constructor
+  · rw [e1]; exact hb.magic
+  · rw [e2, e3, hb.vmaj, hb.vmin]; decide
+  · rw [e4]; exact hb.num
+  · intro i hi
+    rw [e4] at hi
+    rw [hsa, e6]
+    have hu := hb.used i hi
+    refine ⟨hu.1, ?_⟩
+    have hnl := hb.num
+    have hlen := hb.len
+    have hgd : ∀ j, j < h.numSect → (h.sects.take h.numSect).getD j Sect.none = h.sectAt j := by
+      intro j hj
+      simp [Hdr.sectAt, List.getD_eq_getElem?_getD, List.getElem?_take, hj]
+    have := setupIndex_unique (h.sects.take h.numSect) 0 (fun _ => nameLimit) (h.sectAt i).name i
+      (by simp; omega) (by rw [hgd i hi]) hu.1
+      (by
+        intro j hj hjn
+        have hj' : j < h.numSect := by simp at hj; omega
+        rw [hgd j hj'] at hjn
+        have h2 := (hb.used j hj').2
+        rw [hjn, hu.2] at h2; exact h2.symm)
+    rw [this]; omega
+  · rw [hsa]; exact hb.off0 hpos
+  · intro i hi0 hi
+    rw [e4] at hi
+    rw [hsa, hsa]; exact hb.contig i hi0 hi
 
 /-! ### `libGetSection` -/
 
-/-- the decoders always get a buffer of the announced length … -/
-theorem getSection_length (file : List Nat) (h : Hdr) (name : Nat) (junk : List Nat) (r : SectRead)
-    (hr : getSection file h name junk = some r) : r.data.length = r.want ∧ r.want = sectLength h name := by
+/-- a section that is handed to a decoder was read completely and is exactly the bytes of the file -/
+theorem getSection_exact (file : List Nat) (h : Hdr) (name : Nat) (junk : List Nat) (r : SectRead)
+    (hr : getSection file h name junk = some (some r)) :
+    r.want = sectLength h name ∧ r.got = r.want ∧
+    r.data = (file.drop (sectOffset h name)).take (sectLength h name) := by
   unfold getSection at hr
-  split at hr
-  · injection hr with hr; subst hr; exact ⟨readBuf_length _ _ _ _, rfl⟩
-  · cases hr
+  by_cases hs : hasSection h name = true
+  · rw [if_pos hs] at hr
+    by_cases hg : readCount file (sectOffset h name) (sectLength h name) = sectLength h name
+    · rw [if_pos hg] at hr
+      injection hr with hr; injection hr with hr; subst hr
+      refine ⟨rfl, hg, ?_⟩
+      simp only [readSection, readBuf]
+      simp only [readCount] at hg
+      rw [hg]; simp
+    · rw [if_neg hg] at hr; cases hr
+  · rw [if_neg hs] at hr; cases hr
 
-/-- … filled from the file exactly when the section lies within the file … -/
-theorem getSection_in_bounds (file : List Nat) (h : Hdr) (name : Nat) (junk : List Nat) (r : SectRead)
-    (hr : getSection file h name junk = some r)
-    (hb : sectOffset h name + sectLength h name ≤ file.length) :
-    r.got = r.want ∧ r.data = (file.drop (sectOffset h name)).take (sectLength h name) := by
-  unfold getSection at hr
-  split at hr
-  · injection hr with hr; subst hr
-    exact ⟨by simp [readCount]; omega, readBuf_exact _ _ _ _ hb⟩
-  · cases hr
+/-- a read that the file cannot satisfy is refused (never handed on) -/
+theorem getSection_short_refused (file : List Nat) (h : Hdr) (name : Nat) (junk : List Nat)
+    (hs : hasSection h name = true) (hb : file.length < sectOffset h name + sectLength h name)
+    (hpos : 0 < sectLength h name) : getSection file h name junk = none := by
+  unfold getSection
+  rw [if_pos hs, if_neg]
+  simp [readCount]; omega
 
-/-- … and otherwise short, which the code never notices (the count is discarded):
-the tail of the buffer is the allocation's previous content. -/
-theorem getSection_short (file : List Nat) (h : Hdr) (name : Nat) (junk : List Nat) (r : SectRead)
-    (hr : getSection file h name junk = some r)
-    (hb : file.length < sectOffset h name + sectLength h name) (hpos : 0 < sectLength h name) :
-    r.got < r.want := by
-  unfold getSection at hr
-  split at hr
-  · injection hr with hr; subst hr
-    simp [readCount]; omega
-  · cases hr
+/-- `Index[]` of a parsed header points to an entry in use or is `LIB_INDEX_LIMIT` -/
+theorem readHeader_index (file junk : List Nat) (n : Nat) :
+    (readHeader file junk).index n = nameLimit ∨
+    (readHeader file junk).index n < (readHeader file junk).numSect := by
+  simp only [readHeader]
+  generalize readBuf file 0 hdrSize junk = buf
+  unfold decode
+  split
+  · simp only
+    rename_i m0 m1 a0 a1 a2 a3 b0 b1 b2 b3 n0 n1 rest
+    rcases setupIndex_range ((getSects nameLimit rest).take (getHInt n0 n1)) 0 (fun _ => nameLimit) n with h | h
+    · exact Or.inl h
+    · refine Or.inr ?_
+      have := h.2
+      simp only [List.length_take] at this
+      omega
+  · exact Or.inl rfl
 
-theorem getSectionChecked_exact (file : List Nat) (h : Hdr) (name : Nat) (junk : List Nat) (r : SectRead)
-    (hr : getSectionChecked file h name junk = some (some r)) : r.got = r.want := by
-  unfold getSectionChecked at hr
-  split at hr
-  · cases hr
-  · split at hr
-    · cases hr
-    · rename_i hg; injection hr with hr; injection hr with hr; subst hr
-      simpa using hg
+/-- **every section of an accepted file is read completely**: after `libGetHeader` succeeded,
+`libGetSection` never meets a short read, whatever the name asked for. -/
+theorem accepted_sections_complete (file junk junk2 : List Nat) (h : Hdr) (name : Nat)
+    (hc : getHeader file junk = some h) : getSection file h name junk2 ≠ none := by
+  obtain ⟨hok, hin⟩ := accepted_in_bounds file junk h hc
+  obtain ⟨_, hh, _, _⟩ := (getHeader_some file junk h).mp hc
+  unfold getSection
+  by_cases hs : hasSection h name = true
+  · rw [if_pos hs]
+    have hidx := readHeader_index file junk name
+    rw [← hh] at hidx
+    rcases hidx with h17 | hlt
+    · exfalso
+      have hl : h.sects.length = nameLimit := by rw [hh]; exact decode_sects_length _
+      have h0 := sectAt_limit h hl
+      simp [hasSection, sectOffset, h17, h0, Sect.none] at hs
+    · have hb := hin (h.index name) hlt
+      rw [if_pos (by simp [readCount, sectOffset, sectLength]; omega)]
+      simp
+  · rw [if_neg hs]; simp
 
 /-! ### truncation classes -/
 
@@ -293,22 +332,25 @@ theorem truncation_classes (h : Hdr) (fileLen n : Nat) (hok : chk h = .ok) (hpos
 
 /-- a three-section library that meets every hypothesis above -/
 def sampleHdr : Hdr := (build newHeader [(5, 552), (0, 1748), (15, 10)]).getD newHeader
+def sampleFile : List Nat := putHeader sampleHdr ++ List.replicate 2310 7
 
 example : (build newHeader [(5, 552), (0, 1748), (15, 10)]).isSome = true := by decide +kernel
-example : chk sampleHdr = .ok ∧ sampleHdr.numSect = 3 ∧
-    (sampleHdr.sectAt 2).offset + (sampleHdr.sectAt 2).length = 2475 := by decide +kernel
+example : chk sampleHdr = .ok ∧ sampleHdr.numSect = 3 ∧ endOf sampleHdr = 2475 ∧ sampleFile.length = 2475 := by
+  decide +kernel
 example : truncClass sampleHdr 5 = .header ∧ truncClass sampleHdr 100 = .table ∧
     truncClass sampleHdr 165 = .section 0 ∧ truncClass sampleHdr 716 = .section 0 ∧
     truncClass sampleHdr 717 = .section 1 ∧ truncClass sampleHdr 2474 = .section 2 ∧
     truncClass sampleHdr 2475 = .beyond := by decide +kernel
-example : chk (getHeader (putHeader sampleHdr ++ List.replicate 2310 7) []) = .ok := by decide +kernel
-example : (getHeaderChecked (putHeader sampleHdr ++ List.replicate 2310 7) []).isSome = true ∧
-    getHeaderChecked ((putHeader sampleHdr ++ List.replicate 2310 7).take 2000) [] = none := by
-  decide +kernel
+example : (getHeader sampleFile []).isSome = true ∧ (getHeader (sampleFile.take 2000) []).isNone = true ∧
+    refusal (sampleFile.take 2000) [] = some .outOfBounds ∧
+    refusal (sampleFile.take 100) [] = some .shortRead ∧
+    (getHeader (sampleFile ++ [1, 2, 3]) []).isSome = true := by decide +kernel
+example : ((getHeader sampleFile []).bind fun h => getSection sampleFile h 15 []) =
+    some (some ⟨List.replicate 10 7, 10, 10⟩) := by decide +kernel
 /-- the verdicts are all reachable -/
 example : chk { sampleHdr with magic := 0 } = .badMagic ∧ chk { sampleHdr with verMajor := 27 } = .badVersion ∧
     chk { sampleHdr with numSect := 18 } = .badNumSect ∧ chk { sampleHdr with numSect := 4 } = .badSectName ∧
-    chk { sampleHdr with index := fun _ => 0 } = .bugIndex ∧ chk newHeader = .badSectHdr := by decide +kernel
+    chk { sampleHdr with index := fun _ => 0 } = .dupSect ∧ chk newHeader = .badSectHdr := by decide +kernel
 
 end AldorVerif.LibHdr
 
